@@ -224,11 +224,85 @@ fn run_shard(suite: &str, tier: Tier, seed: u64, shard: usize, nshards: usize, o
     .unwrap();
 }
 
+/// A stack overflow, a failed allocation, an abort inside the library kills the whole process; `catch_unwind` cannot help.
+/// This handler (async-signal-safe: atomics, a stack buffer, `write`, `_exit`) prints which case every shard was running,
+/// so that `check` can re-run those few cases one by one (`hangcase`) and name the one that does not survive.
+extern "C" fn on_fatal_signal(sig: libc::c_int) {
+    let mut buf = [0u8; 1400];
+    let mut n = 0usize;
+    let mut put = |b: &[u8], n: &mut usize| {
+        for &x in b {
+            if *n < 1399 {
+                buf[*n] = x;
+                *n += 1;
+            }
+        }
+    };
+    let num = |mut v: u64, out: &mut [u8; 20]| -> usize {
+        let mut i = 20;
+        loop {
+            i -= 1;
+            out[i] = b'0' + (v % 10) as u8;
+            v /= 10;
+            if v == 0 {
+                break;
+            }
+        }
+        i
+    };
+    put(b"\nHARNESS-CRASH signal=", &mut n);
+    let mut d = [0u8; 20];
+    let i = num(sig as u64, &mut d);
+    put(&d[i..], &mut n);
+    put(b" cases=", &mut n);
+    for sh in 0..MAX_SHARDS {
+        let mut d = [0u8; 20];
+        let v = if SHARD_DONE[sh].load(Ordering::Relaxed) { u64::MAX } else { CASE_IDX[sh].load(Ordering::Relaxed) };
+        if v == u64::MAX {
+            put(b"-", &mut n);
+        } else {
+            let i = num(v, &mut d);
+            put(&d[i..], &mut n);
+        }
+        put(if sh + 1 < MAX_SHARDS { b"," } else { b"\n" }, &mut n);
+    }
+    unsafe {
+        libc::write(2, buf.as_ptr() as *const libc::c_void, n);
+        libc::_exit(7);
+    }
+}
+
+fn install_crash_handler() {
+    unsafe {
+        for sig in [libc::SIGABRT, libc::SIGSEGV, libc::SIGBUS, libc::SIGILL] {
+            let mut sa: libc::sigaction = std::mem::zeroed();
+            sa.sa_sigaction = on_fatal_signal as usize;
+            sa.sa_flags = libc::SA_ONSTACK | libc::SA_RESETHAND;
+            libc::sigemptyset(&mut sa.sa_mask);
+            libc::sigaction(sig, &sa, std::ptr::null_mut());
+        }
+    }
+}
+
 fn main() {
     if std::env::var("HARNESS_VERBOSE_PANIC").is_err() {
         std::panic::set_hook(Box::new(|_| {}));
     }
+    install_crash_handler();
     let args: Vec<String> = std::env::args().collect();
+    if args.len() >= 2 && args[1] == "crashtest" {
+        // self-test of the crash handler: overflow the stack of a worker thread
+        #[allow(unconditional_recursion)]
+        fn deep(x: u64) -> u64 {
+            let a = [x; 64];
+            std::hint::black_box(&a);
+            deep(x + 1) + a[3]
+        }
+        CASE_IDX[2].store(4711, Ordering::Relaxed);
+        let h = std::thread::Builder::new().stack_size(1 << 20).spawn(|| deep(1)).unwrap();
+        let _ = h.join();
+        return;
+    }
     if args.len() >= 3 && args[1] == "replay" {
         suites::replay(&args[2]);
         return;
